@@ -821,3 +821,34 @@ Proof.
   assert (E : forall a b c : R, 2 * (1 / 2 * (a + b)) - c = a + b - c) by (intros; field).
   rewrite !E, (Rplus_comm x2 x0), (Rplus_comm y2 y0). intuition.
 Qed.
+
+(* ------------------------------------------------------------------ the lattice children partition the finer lattice *)
+Lemma flip_adjacent (fl : bool) (x y : Z) : flip_of fl (x + 1, y)%Z = negb (flip_of fl (x, y)).
+Proof.
+  pose proof (flip_neighbour fl (x, y) 1 0 eq_refl) as H. unfold zadd in H. cbn [fst snd] in H.
+  replace (y + 0)%Z with y in H by ring. exact H.
+Qed.
+
+Local Opaque Z.mul Z.add.
+Lemma lattice_children_distinct (down : bool) (c : zpt) : NoDup (lattice_children down c).
+Proof.
+  destruct c as [x y]. unfold lattice_children, zadd, dbl. cbn [fst snd].
+  destruct down; repeat constructor; cbn [In]; intros H;
+    repeat (destruct H as [H|H]; [injection H; lia|]); exact H.
+Qed.
+
+Lemma lattice_child_unique_parent (fl : bool) (c1 c2 c' : zpt) :
+  In c' (lattice_children (flip_of fl c1) c1) -> In c' (lattice_children (flip_of fl c2) c2) -> c1 = c2.
+Proof.
+  destruct c1 as [x1 y1], c2 as [x2 y2]. unfold lattice_children, zadd, dbl. cbn [fst snd].
+  destruct (flip_of fl (x1, y1)) eqn:D1; destruct (flip_of fl (x2, y2)) eqn:D2; cbn [In];
+  intros [H|[H|[H|[H|[]]]]] [K|[K|[K|[K|[]]]]]; subst c'; injection K as Kx Ky;
+  first
+  [ exfalso; lia
+  | assert (Ex : x2 = x1) by lia; assert (Ey : y2 = y1) by lia; subst x2 y2; first [reflexivity|congruence]
+  | assert (Ex : x2 = (x1 + 1)%Z) by lia; assert (Ey : y2 = y1) by lia; subst x2 y2;
+    rewrite flip_adjacent, D1 in D2; discriminate
+  | assert (Ex : x1 = (x2 + 1)%Z) by lia; assert (Ey : y2 = y1) by lia; subst x1 y2;
+    rewrite flip_adjacent, D2 in D1; discriminate ].
+Qed.
+Local Transparent Z.mul Z.add.
